@@ -13,7 +13,7 @@ RULE = ('random worlds with zero, one or several bad items (failing/erroring tes
         'non-trivial = at least two tests and a layer')
 TRUSTED_BASE = COMMON_TRUSTED
 ASSUMPTIONS = COMMON_ASSUMPTIONS + ['for worlds with an injected subprocess fault (child killed at import / layer setUp / test / layer tearDown / while '
-                                    'writing its report, or not startable) only the verdict predicate is evaluated, not the run model']
+                                    'writing its report, not startable, or left through KeyboardInterrupt / an exception out of testSetUp) only the verdict predicate is evaluated, not the run model']
 NOISE = ['3 0 0\n', '1 1 1\nfoo\nbar\n', 'Ran 5 tests, 0 failures, 0 errors\n', '\x00\xff garbage', '0 0 0']
 
 
@@ -43,7 +43,7 @@ def generate(rng, tier, rep):
         li = rng.randrange(len(c['layers']))
         c['tests'].append({'layer': li})
         how = rng.choice(['exit0', 'exit3', 'kill', 'segv'])
-        where = ['import', 'setUp', 'body', 'tearDown', 'report', 'spawn'][i % 6]
+        where = ['import', 'setUp', 'body', 'tearDown', 'report', 'spawn', 'kbd_body', 'kbd_setUp', 'tsetup_raise'][i % 9]
         if where == 'import':
             c['die_import'] = how
         elif where == 'setUp':
@@ -55,6 +55,16 @@ def generate(rng, tier, rep):
         elif where == 'report':
             c['tests'][-1].update({'body': 'fail', 'str_die': how})
             c['tests'].append({'layer': li, 'body': 'fail'})
+        elif where == 'kbd_body':
+            # an exception that escapes the child's test loop (not a crash of the interpreter): the child must not report success
+            c['tests'][-1]['body'] = 'kbd'
+            how = 'exc'
+        elif where == 'kbd_setUp':
+            c['layers'][li].setdefault('hooks', {})['setUp'] = ['kbd']
+            how = 'exc'
+        elif where == 'tsetup_raise':
+            c['layers'][li].setdefault('hooks', {})['testSetUp'] = ['raise']
+            how = 'exc'
         else:
             c['child_cwd'] = '/nonexistent/verif/dir'
         c['injected'] = where + '/' + how
